@@ -1887,6 +1887,13 @@ func guardedHelperResult(p *an.Prog, v ssa.Value, at ssa.Instruction) *helperRes
 // allCallSites: v is a parameter of an unexported module function (not used as a value) and pred
 // holds for the corresponding argument at every call site.
 func allCallSites(p *an.Prog, v ssa.Value, pred func(arg ssa.Value, at ssa.Instruction) bool) bool {
+	return allCallSitesD(p, v, pred, 0)
+}
+
+func allCallSitesD(p *an.Prog, v ssa.Value, pred func(arg ssa.Value, at ssa.Instruction) bool, depth int) bool {
+	if depth > 3 {
+		return false
+	}
 	par, ok := an.Deref(v).(*ssa.Parameter)
 	if !ok {
 		par, ok = v.(*ssa.Parameter)
@@ -1909,7 +1916,14 @@ func allCallSites(p *an.Prog, v ssa.Value, pred func(arg ssa.Value, at ssa.Instr
 		return false
 	}
 	for _, cs := range sites {
-		if idx >= len(cs.Call.Args) || !pred(cs.Call.Args[idx], cs) {
+		if idx >= len(cs.Call.Args) {
+			return false
+		}
+		if pred(cs.Call.Args[idx], cs) {
+			continue
+		}
+		// the argument is itself a parameter handed down: the question moves one caller up
+		if !allCallSitesD(p, cs.Call.Args[idx], pred, depth+1) {
 			return false
 		}
 	}
